@@ -132,7 +132,7 @@ def code_order_globals(body):
 
 
 # the C02 features that also change the JavaScript (F40 / F122 / F124 / F125 / F21 do not: the JavaScript side is right there)
-C02_RELEVANT = ("F20", "F38", "F140", "F142")
+C02_RELEVANT = ("F20", "F38", "F140")
 EXCEPTION_FEATURES = ()
 FIXED_JS = {"F120", "F128", "F129", "F130"}     # repaired in /repo: ordinary inputs now
 
